@@ -226,6 +226,13 @@ func (d *DB) seam(site, arg string) faultKind {
 func newDB(w *World) *DB { return &DB{w: w, rows: map[string]*Row{}} }
 
 func (d *DB) wrap(r *Row) authboss.User {
+	if off := d.w.Cfg.DBZoneOffset; off != 0 && !d.second {
+		// like an SQL driver configured with a session time zone: the same
+		// instants, expressed in another location
+		loc := time.FixedZone("dbzone", off)
+		r.LastAttempt, r.Locked = r.LastAttempt.In(loc), r.Locked.In(loc)
+		r.RecoverExpiry, r.OAuth2Expiry = r.RecoverExpiry.In(loc), r.OAuth2Expiry.In(loc)
+	}
 	if d.w.Cfg.TOTPOneTime {
 		return RowOT{r}
 	}
